@@ -435,6 +435,15 @@ class ExprMixin:
             if opn in ("Eq", "NotEq") and isinstance(a, Opaque) and isinstance(b, Opaque) and a.term is not None and b.term is not None:
                 return (a.term == b.term) if opn == "Eq" else (a.term != b.term)
             raise Unsupported("comparison with opaque value", node)
+        from .nplib import DTypeV
+        if isinstance(a, DTypeV) and isinstance(b, DTypeV) and opn in ("Eq", "NotEq"):
+            if a.tag != b.tag:
+                return opn == "NotEq"
+            if a.did is None or b.did is None:
+                raise Unsupported("comparison of structured dtypes", node)
+            eq = z3.simplify(a.did == b.did)
+            eq = True if z3.is_true(eq) else eq
+            return eq if opn == "Eq" else znot(eq)
         if ka not in SCALAR_KINDS or kb not in SCALAR_KINDS:
             if opn in ("Eq", "NotEq"):
                 same = (a is b) or (isinstance(a, Ref) and a == b)
